@@ -103,6 +103,7 @@ struct Prob {
     cones: Vec<SupportedConeT<f64>>,
     set: Vec<(String, SV)>, // deviations from the default settings
     over: Vec<(String, SV)>, // deviations from default of the override settings used at load #2
+    live: Vec<(String, SV)>, // public settings fields changed on the live solver between construction and save
 }
 fn fbits(v: &[f64]) -> Value { Value::Array(v.iter().map(|x| json!(format!("{:016x}", x.to_bits()))).collect()) }
 fn bits_f(v: &Value) -> Vec<f64> {
@@ -141,12 +142,13 @@ impl Prob {
         json!({"P": csc_json(&self.P), "q": fbits(&self.q), "A": csc_json(&self.A), "b": fbits(&self.b),
                "cones": self.cones.iter().map(cone_json).collect::<Vec<_>>(),
                "set": self.set.iter().map(|(k, v)| json!([k, sv_json(v)])).collect::<Vec<_>>(),
-               "over": self.over.iter().map(|(k, v)| json!([k, sv_json(v)])).collect::<Vec<_>>()})
+               "over": self.over.iter().map(|(k, v)| json!([k, sv_json(v)])).collect::<Vec<_>>(),
+               "live": self.live.iter().map(|(k, v)| json!([k, sv_json(v)])).collect::<Vec<_>>()})
     }
     fn from_json(v: &Value) -> Prob {
-        let kv = |a: &Value| a.as_array().unwrap().iter().map(|p| (p[0].as_str().unwrap().to_string(), sv_from_json(&p[1]))).collect();
+        let kv = |a: &Value| a.as_array().map(|x| x.clone()).unwrap_or_default().iter().map(|p| (p[0].as_str().unwrap().to_string(), sv_from_json(&p[1]))).collect();
         Prob { P: csc_from(&v["P"]), q: bits_f(&v["q"]), A: csc_from(&v["A"]), b: bits_f(&v["b"]),
-               cones: v["cones"].as_array().unwrap().iter().map(cone_from).collect(), set: kv(&v["set"]), over: kv(&v["over"]) }
+               cones: v["cones"].as_array().unwrap().iter().map(cone_from).collect(), set: kv(&v["set"]), over: kv(&v["over"]), live: kv(&v["live"]) }
     }
     fn settings(&self) -> DefaultSettings<f64> {
         let mut s = DefaultSettings::<f64>::default();
@@ -238,8 +240,11 @@ fn roundtrip(sink: &mut CaseSink, pr: &Prob, tags: &[&str]) {
     tick();
     let settings = pr.settings();
     let input = pr.json();
-    let user = problem_coq(&pr.P, &pr.q, &pr.A, &pr.b, &pr.cones, &settings_coq(&settings));
-    let mut rec = json!({"kind": "rt", "input": input, "tags": tags, "user": user});
+    // the settings the solver holds when it is saved (public fields may be changed on the live solver)
+    let mut save_settings = settings.clone();
+    for (k, v) in &pr.live { settings_set(&mut save_settings, k, v); }
+    let user = problem_coq(&pr.P, &pr.q, &pr.A, &pr.b, &pr.cones, &settings_coq(&save_settings));
+    let mut rec = json!({"kind": "rt", "input": input, "tags": tags, "user": user, "live": !pr.live.is_empty()});
     let s0 = guarded(|| DefaultSolver::<f64>::new(&pr.P, &pr.q, &pr.A, &pr.b, &pr.cones, settings.clone()));
     let mut s0 = match s0 {
         Some(s) => s,
@@ -255,7 +260,9 @@ fn roundtrip(sink: &mut CaseSink, pr: &Prob, tags: &[&str]) {
     let d = &s0.data;
     rec["internal"] = json!(format!("(@mkInternal float {} {} {} {} {} {} {} {})", csc_coq(&d.P), cfllist(&d.q), csc_coq(&d.A),
         cfllist(&d.b), clist(&d.cones, cone_coq), cfllist(&d.equilibration.dinv), cfllist(&d.equilibration.einv), cfl(d.equilibration.c)));
+    // mutate public settings fields on the live solver, then
     // save (before solving; the data do not change during a solve)
+    for (k, v) in &pr.live { settings_set(&mut s0.settings, k, v); }
     let mut file = tmpfile("rt");
     let saved = guarded(|| s0.save_to_file(&mut file).map_err(|e| e.to_string()));
     match saved {
@@ -351,7 +358,7 @@ fn gen_problem(rng: &mut Rng, idx: usize, mode: usize) -> Prob {
     let cones = gen_cones(rng, mode);
     let m: usize = cones.iter().map(cone_nvars).sum();
     let n = 1 + rng.below(4);
-    let eq_on = matches!(mode, 1 | 3 | 4 | 5) || (mode == 6 && rng.chance(1, 2));
+    let eq_on = matches!(mode, 1 | 3 | 4 | 5) || (mode == 6 && rng.chance(1, 2)) || (mode == 9 && idx % 20 < 10 || mode == 9 && rng.chance(1, 3));
     let pool: &[f64] = match mode { 2 => &EXTREME, 3 => &EXTREME_EQ, _ => &MODERATE };
     let val = |rng: &mut Rng| -> f64 {
         if (mode == 2 || mode == 3) && rng.chance(1, 2) { *rng.pick(&MODERATE) } else { *rng.pick(pool) }
@@ -453,17 +460,30 @@ fn gen_problem(rng: &mut Rng, idx: usize, mode: usize) -> Prob {
         (_, SV::B(b)) => over.push((name.to_string(), SV::B(!b))),
         _ => {}
     }
-    Prob { P, q, A, b, cones, set, over }
+    // live mutations (mode 9): flags toggled both ways, tolerances / limits changed after construction
+    let mut live: Vec<(String, SV)> = vec![];
+    if mode == 9 {
+        let cur = |set: &Vec<(String, SV)>, k: &str| -> bool { set.iter().rev().find(|(n, _)| n == k).map(|(_, v)| *v == SV::B(true)).unwrap_or(true) };
+        if rng.chance(3, 4) { live.push(("equilibrate_enable".into(), SV::B(!cur(&set, "equilibrate_enable")))); }
+        if rng.chance(1, 2) { live.push(("presolve_enable".into(), SV::B(!cur(&set, "presolve_enable")))); }
+        if rng.chance(1, 2) { live.push(("tol_gap_abs".into(), SV::F(*rng.pick(&[1e-7, 3e-9, 2e-8])))); }
+        if rng.chance(1, 3) { live.push(("tol_feas".into(), SV::F(*rng.pick(&[1e-7, 5e-9])))); }
+        if rng.chance(1, 3) { live.push(("max_iter".into(), SV::U(100 + rng.below(50) as u32))); }
+        if rng.chance(1, 4) { live.push(("time_limit".into(), SV::F(*rng.pick(&[f64::INFINITY, 5000.0])))); }
+        if rng.chance(1, 4) { live.push(("equilibrate_max_iter".into(), SV::U(rng.below(5) as u32))); }
+        if live.is_empty() { live.push(("equilibrate_enable".into(), SV::B(!cur(&set, "equilibrate_enable")))); }
+    }
+    Prob { P, q, A, b, cones, set, over, live }
 }
 
 fn rt_stream(sink: &mut CaseSink, seed: u64, thorough: bool) -> Value {
     let mut rng = Rng::new(seed ^ 0xC19);
-    let total = if thorough { 1500 } else { 320 };
-    let mut by_mode = vec![0usize; 9];
+    let total = if thorough { 1600 } else { 350 };
+    let mut by_mode = vec![0usize; 10];
     for idx in 0..total {
-        let mode = idx % 9;
+        let mode = idx % 10;
         let pr = gen_problem(&mut rng, idx, mode);
-        let tag = ["eqoff-moderate", "eqon-moderate", "eqoff-extreme", "eqon-extreme", "presolve-reduction", "chordal", "empty", "b-capped", "time-limit-max"][mode];
+        let tag = ["eqoff-moderate", "eqon-moderate", "eqoff-extreme", "eqon-extreme", "presolve-reduction", "chordal", "empty", "b-capped", "time-limit-max", "live-settings-mutation"][mode];
         roundtrip(sink, &pr, &[tag]);
         by_mode[mode] += 1;
     }
